@@ -875,14 +875,14 @@ class ScenarioGenerator:
                     firewall[(src, dest)] = dest_avail.copy()
                     continue
                 # add at least one service to allowed service
-                dest_allowed = np.random.choice(list(dest_avail))
+                dest_allowed = np.random.choice(sorted(dest_avail))
                 # for dest subnet choose available services upto
                 # restrictiveness limit or all services
                 dest_avail.remove(dest_allowed)
                 allowed = set()
                 allowed.add(dest_allowed)
                 while len(allowed) < restrictiveness:
-                    dest_allowed = np.random.choice(list(dest_avail))
+                    dest_allowed = np.random.choice(sorted(dest_avail))
                     if dest_allowed not in allowed:
                         allowed.add(dest_allowed)
                         dest_avail.remove(dest_allowed)
